@@ -12,7 +12,12 @@ Layers (each is a set of obligations generated from the real source on every run
      _parse_pack_info (any number of pack streams, all digest layouts) against the format grammar; BOUNDED (thorough
      tier): _parse_folder, _parse_unpack_info, _parse_substreams_info (small shapes, every stream byte symbolic);
      BOUNDED native scope (every run): reference writers x layouts x member sets on the real code, the stand-in for
-     _parse_header / _parse_main_header / _parse_streams_info / _parse_files_info, which are not under contract;
+     _parse_files_info / _parse_encoded_header / _skip_substreams_info, which are not under contract;
+     round 7: the header DISPATCHERS are under discharged contracts over any stream -- _parse_header (signature header, CRCs
+     uninterpreted), _parse_end_header, _parse_main_header (incl. an ArchiveProperties list of any length), _parse_streams_info
+     (which section parser runs where, in grammar order, final position, exact refusal condition; the section parsers are seen
+     through call-site views) -- and so is the facade chain SevenZipFile.__init__/__enter__/__exit__/list/needs_password/
+     extractall -> SevenZipReader.__init__ -> _parse_header (the reader is built on the facade's own file);
  (b) _build_file_list (any number of files / folders): file i gets its name, attributes and the size of its
      sub-stream; the r-th stream-bearing file goes to the folder k with cum(k) <= r < cum(k) + num_streams(k);
  (c) extractall / _decompress_folder: the bytes handed to the decoder chain of folder k are
@@ -34,7 +39,7 @@ loop it replaces.  A refutation at the SMT level is never reported by itself: ev
 obligation whose clause does not recognise a shape, and every locked obligation the changed code no longer
 generates is `unknown` and handed to the native replayer (replay/C10.py); VIOLATION = a failing input reproduced on
 the real code.
-Recorded known finding: F26 (known_findings.json).  F10, F25 and F27 are fixed in /repo: their input classes are checked
+Recorded known findings: F26, F31 (known_findings.json).  F10, F25 and F27 are fixed in /repo: their input classes are checked
 like every other input (replay/C10.py exempts the class of a finding only while known_findings.json lists it as open).
 """
 import ast
@@ -89,12 +94,12 @@ def m_stream_read(ex, st, obj, args, kwargs, node):
         if ex.feasible(st.pc, pos + c > L):
             st.assume(pos + c > L)
             st.ghost[common.pos_key(obj)] = pos + rest
-            out.append((st, VSeq(rest, lambda i, pos=pos: VInt(SB(s, pos + i)), "byte", True)))
+            out.append((st, VSeq(rest, lambda i, pos=pos: VInt(SB(s, pos + i)), "byte", True, tag=("stream-bytes", s, pos, rest))))
         return out
     nt = ops.int_term(n)
     ln = z3.If(z3.Or(nt < 0, nt > rest), rest, nt)
     st.ghost[common.pos_key(obj)] = pos + ln
-    return [(st, VSeq(ln, lambda i, pos=pos: VInt(SB(s, pos + i)), "byte", True))]
+    return [(st, VSeq(ln, lambda i, pos=pos: VInt(SB(s, pos + i)), "byte", True, tag=("stream-bytes", s, pos, ln)))]
 
 
 def m_struct_unpack(ex, st, args, kwargs, node):
@@ -413,9 +418,22 @@ def byte_contracts():
             lc.st.bind(res, VSeq(i, lambda j: VBool(BITF(s, p0, j)), "bool"))
         return z3.And(conj)
 
+    def p_check_defined():
+        """False | True; a call that omits the argument gets the default of the REAL signature (only when that is a bool literal)"""
+        m = p_alts(p_const(False), p_const(True))
+        try:
+            fn = loader.module(SEVEN).functions.get("SevenZipReader._read_boolean_vector")
+            names = [a.arg for a in fn.args.args]
+            dflt = dict(zip(names[len(names) - len(fn.args.defaults):], fn.args.defaults)).get("check_defined")
+            if isinstance(dflt, ast.Constant) and isinstance(dflt.value, bool):
+                m.default = lambda ex, st, v=dflt.value: VBool(v)
+        except Exception:  # noqa  no default: a call that omits the argument is out of subset, as before
+            pass
+        return m
+
     out.append(FnContract(
         target=f"{RD}._read_boolean_vector",
-        params=[("self", p_reader()), ("count", p_int(0)), ("check_defined", p_alts(p_const(False), p_const(True)))],
+        params=[("self", p_reader()), ("count", p_int(0)), ("check_defined", p_check_defined())],
         requires=lambda c: z3.And(req_stream(c), bv_n(c) >= 0), frame=frame_stream, returns=bv_returns,
         ensures=[("consumes-exactly-the-vector", lambda c: pos1(c) == pos0(c) + bv_need(c)),
                  ("returns-only-if-enough-bytes", lambda c: z3.Not(bv_short(c))),
@@ -836,6 +854,14 @@ class C10Executor(Executor):
 
     _role_stack = ()
     _loop_nodes = ()
+
+    def b_hasattr(self, st, args, kwargs, node):
+        """hasattr(x, "name") for an abstract object of a sort the pack models WITH a method of that name: True (the model says what the
+        object can do); anything else stays an unknown Bool"""
+        if len(args) == 2 and isinstance(args[0], VExt) and isinstance(args[1], VStr) and args[1].const() is not None \
+                and (args[0].sort, args[1].const()) in self.reg.method_models:
+            return [(st, VBool(True))]
+        return super().b_hasattr(st, args, kwargs, node)
 
     def symbolic_for(self, s, st, it):
         spec = None
@@ -2279,6 +2305,8 @@ def tar_members_seq(o):
 def install_members(reg):
     reg.ext_models[("new", "collections.Counter")] = new_counter
     reg.method_models[("seq", "startswith")] = m_seq_startswith
+    reg.method_models[("seq", "copy")] = lambda ex, st, obj, args, kwargs, node: ([(st, obj)] if not args and not kwargs and not obj.is_bytes
+                                                                                  else ex.havoc_call(st, "seq.copy", args, node))
     reg.method_models[("PathCounts", "get")] = m_pathcounts_get
     reg.ext_models["os.path.normpath"] = str_fn("os.path.normpath", NORMPATH)
     reg.ext_models["str.split"] = m_str_split
@@ -3575,6 +3603,498 @@ def parser_contracts():
     return out
 
 
+# ====================================================== header dispatchers (round 7) ==
+# StreamsInfo ::= [PackInfo(0x06 ..)] [UnpackInfo(0x07 ..)] [0x08 SubStreamsInfo] 0x00
+# Header      ::= [0x02 ArchiveProperties] [0x03 StreamsInfo] [0x04 StreamsInfo] [0x05 FilesInfo] 0x00          (7zFormat.txt)
+# end header  ::= [0x17 EncodedHeader -> the rest is read from the decoded stream] (0x01 Header | 0x00)
+# The dispatchers are verified against this grammar over ANY stream: which section parser runs, at which stream position (the
+# PackInfo / UnpackInfo parsers re-read their id byte, the SubStreamsInfo / FilesInfo / StreamsInfo / Header parsers start after
+# it), in which order, where the stream stands afterwards and exactly when the section is refused.  A section parser is seen
+# through a CALL-SITE VIEW: it is recorded as a ghost event (name, stream, position), leaves the stream at `end_of_<name>(s, p)`
+# and refuses exactly when `<name>_refuses(s, p)` -- both uninterpreted: every deterministic parser satisfies the view, so the
+# verified contract of _parse_pack_info (position = end of the PackInfo grammar) implies it.
+SUB_END, SUB_FAIL = {}, {}
+ENCS = z3.Function("decoded_header_stream", Stream, I, Stream)       # the stream _parse_encoded_header installs (Trust: decode)
+SUB_FIELDS = ("_pack_positions", "_pack_sizes", "_folders", "_file_sizes", "_files", "_folder_to_files", "_empty_file_indices")
+
+
+def sub_end(name):
+    if name not in SUB_END:
+        SUB_END[name] = z3.Function(f"end_of{name}", Stream, I, I)
+        SUB_FAIL[name] = z3.Function(f"{name.lstrip('_')}_refuses", Stream, I, B)
+    return SUB_END[name], SUB_FAIL[name]
+
+
+def sub_frame(name, new_stream=False):
+    def frame(ex, st, ctx):
+        s = stream_of(ctx, st)
+        p = common.bytesio_pos(st, s)
+        st.ghost["subparsers"] = st.ghost.get("subparsers", ()) + ((name, s.t, p),)
+        w = st.wobj(ctx.args["self"].ref)
+        w.data = dict(w.data)
+        for k in SUB_FIELDS:
+            if k in w.data:
+                w.data[k] = VUnk(k)
+        if new_stream:
+            ns = VExt("Stream7z", ENCS(s.t, p))
+            w.data["_stream"] = ns
+            st.ghost[common.pos_key(ns)] = z3.IntVal(0)
+            st.assume(SLEN(ns.t) >= 0)
+        else:
+            common.havoc_pos(ex, st, s)
+    return frame
+
+
+PEEKS = {"_parse_pack_info": 6, "_parse_unpack_info": 7}      # parsers that read their own id byte and step back when it is not theirs
+
+
+def peek_facts(name, s, p):
+    """PackInfo / UnpackInfo parsers called where the next byte is not their id: a no-op (stream left where it was) unless not even that
+    byte can be read -- the `none` case of the verified PackInfo contract (and of the BOUNDED UnpackInfo one)"""
+    END, FAIL = sub_end(name)
+    L = SLEN(s)
+    return z3.And(z3.Implies(p + 1 > L, FAIL(s, p)),
+                  z3.Implies(z3.And(p + 1 <= L, SB(s, p) != bv(PEEKS[name])), z3.And(z3.Not(FAIL(s, p)), END(s, p) == p)))
+
+
+def sub_view(name, new_stream=False, note=""):
+    END, FAIL = sub_end(name)
+
+    def S0(c):
+        return stream_of(c).t
+    hy = (lambda c: peek_facts(name, S0(c), pos0(c))) if name in PEEKS else None
+    ens = [("returns-only-if-the-section-is-accepted", lambda c: z3.Not(FAIL(S0(c), pos0(c))))]
+    if not new_stream:
+        ens.append(("stream-left-at-the-end-of-the-section", lambda c: pos1(c) == END(S0(c), pos0(c))))
+    return FnContract(target=f"{RD}.{name}", assumed=True, params=[("self", p_reader())], requires=req_stream, frame=sub_frame(name, new_stream),
+                      hyps=hy, ensures=ens, raises=[Raises(BAD, sub=True, when=lambda c: FAIL(S0(c), pos0(c)))],
+                      result_maker=lambda ex, st, ctx: VUnk(f"{name}-result"),
+                      note=note or "call-site view: ghost event (name, stream, position); end position / refusal are functions of (stream, position)")
+
+
+def trace_goal(slots, evs):
+    """the recorded section-parser calls `evs` are exactly the slots whose condition holds, in slot order, each at its stream position;
+    besides them only no-op calls: a PackInfo / UnpackInfo parser asked at a byte that is not its id (it steps back)"""
+    import itertools as _it
+    alts = []
+    for m in range(min(len(slots), len(evs)) + 1):
+        for chosen in _it.combinations(range(len(evs)), m):
+            for idxs in _it.combinations(range(len(slots)), m):
+                if any(slots[i][0] != evs[j][0] for j, i in zip(chosen, idxs)):
+                    continue
+                if any(evs[j][0] not in PEEKS for j in range(len(evs)) if j not in chosen):
+                    continue
+                g = [SB(evs[j][1], evs[j][2]) != bv(PEEKS[evs[j][0]]) for j in range(len(evs)) if j not in chosen]
+                for i, (_n, called, s_, p_) in enumerate(slots):
+                    if i in idxs:
+                        ev = evs[chosen[idxs.index(i)]]
+                        g += [called, ev[1] == s_, ev[2] == p_]
+                    else:
+                        g.append(z3.Not(called))
+                alts.append(z3.And(g + [z3.BoolVal(True)]))
+    return z3.Or(alts) if alts else z3.BoolVal(False)
+
+
+def spec_streams_info(s, p):
+    """-> (slots [(parser, called, stream, position)], end position, refused)"""
+    L = SLEN(s)
+    t, a, fails, slots = SB(s, p), p + 1, [p + 1 > L], []
+    for name, tagv, rereads in (("_parse_pack_info", 6, True), ("_parse_unpack_info", 7, True), ("_parse_substreams_info", 8, False)):
+        END, FAIL = sub_end(name)
+        c, at = t == bv(tagv), (a - 1 if rereads else a)
+        slots.append((name, c, s, at))
+        e = END(s, at)
+        fails += [z3.And(c, FAIL(s, at)), z3.And(c, e + 1 > L)]
+        t, a = z3.If(c, SB(s, e), t), z3.If(c, e + 1, a)
+    fails.append(t != bv(0))
+    return slots, a, z3.Or(fails)
+
+
+# ArchiveProperties ::= 0x02 { id:BYTE != 0  size:NUMBER  data:BYTE[size] }* 0x00 -- a chain of unknown length: where it ends and
+# whether a read falls short on the way are primitive-recursive in the position (uninterpreted + instantiated definitions, like NUMPOS)
+PLEND = z3.Function("property_list_end", Stream, I, I)            # position after the 0x00 that ends the list starting at q
+PLBAD = z3.Function("property_list_short", Stream, I, B)          # some read of the list starting at q falls off the stream
+
+
+def pl_def(s, q):
+    L = SLEN(s)
+    sz = z3.BV2Int(NUMV(s, q + 1), False)
+    nxt = q + 1 + NUML(s, q + 1) + sz
+    return z3.And(PLEND(s, q) == z3.If(SB(s, q) == bv(0), q + 1, PLEND(s, nxt)),
+                  PLBAD(s, q) == z3.If(q + 1 > L, z3.BoolVal(True), z3.If(SB(s, q) == bv(0), z3.BoolVal(False),
+                                       z3.If(z3.Or(q + 1 + NUML(s, q + 1) > L, z3.And(sz > 0, nxt > L)), z3.BoolVal(True), PLBAD(s, nxt)))))
+
+
+def spec_main_header(s, p):
+    """Header ::= [0x02 ArchiveProperties] [0x03 StreamsInfo] [0x04 StreamsInfo] [0x05 FilesInfo] 0x00"""
+    L = SLEN(s)
+    t, a, fails, slots = SB(s, p), p + 1, [p + 1 > L], []
+    c_ap, e_ap = t == bv(2), PLEND(s, p + 1)
+    fails += [z3.And(c_ap, PLBAD(s, p + 1)), z3.And(c_ap, e_ap + 1 > L)]
+    t, a = z3.If(c_ap, SB(s, e_ap), t), z3.If(c_ap, e_ap + 1, a)
+    FEND, FFAIL = sub_end("_parse_files_info")
+    sections = (("_parse_streams_info", 3, lambda q: spec_streams_info(s, q)[1], lambda q: spec_streams_info(s, q)[2]),
+                ("_parse_streams_info", 4, lambda q: spec_streams_info(s, q)[1], lambda q: spec_streams_info(s, q)[2]),
+                ("_parse_files_info", 5, lambda q: FEND(s, q), lambda q: FFAIL(s, q)))
+    for name, tagv, endf, failf in sections:
+        c = t == bv(tagv)
+        slots.append((name, c, s, a))
+        e = endf(a)
+        fails += [z3.And(c, failf(a)), z3.And(c, e + 1 > L)]
+        t, a = z3.If(c, SB(s, e), t), z3.If(c, e + 1, a)
+    fails.append(t != bv(0))
+    return slots, a, z3.Or(fails)
+
+
+def spec_end_header(s, p):
+    """-> (slots, final stream, end position, refused)"""
+    L = SLEN(s)
+    t, fails = SB(s, p), [p + 1 > L]
+    _EE, EFAIL = sub_end("_parse_encoded_header")
+    MEND, MFAIL = sub_end("_parse_main_header")
+    c_enc = t == bv(0x17)
+    s2 = ENCS(s, p + 1)
+    slots = [("_parse_encoded_header", c_enc, s, p + 1)]
+    fails += [z3.And(c_enc, EFAIL(s, p + 1)), z3.And(c_enc, 1 > SLEN(s2))]
+    t2, sx, a = z3.If(c_enc, SB(s2, 0), t), z3.If(c_enc, s2, s), z3.If(c_enc, z3.IntVal(1), p + 1)
+    c_mh = t2 == bv(1)
+    slots.append(("_parse_main_header", c_mh, sx, a))
+    fails += [z3.And(c_mh, MFAIL(sx, a)), z3.And(z3.Not(c_mh), t2 != bv(0))]
+    return slots, sx, z3.If(c_mh, MEND(sx, a), a), z3.Or(fails)
+
+
+CRCF = z3.Function("crc32_of_stream_bytes", Stream, I, I, z3.BitVecSort(32))     # zlib.crc32(s[lo : lo + n]): uninterpreted (Trust: zlib)
+SUBS = z3.Function("stream_over_bytes", Stream, I, I, Stream)                    # io.BytesIO(s[lo : lo + n]): a stream over exactly those bytes
+
+
+def stream_bytes_of(v):
+    return v.tag[1:] if isinstance(v, VSeq) and isinstance(v.tag, tuple) and len(v.tag) == 4 and v.tag[0] == "stream-bytes" else None
+
+
+def install_header(reg):
+    """ASSUMED models used by _parse_header: zlib.crc32 over bytes read from a stream = an uninterpreted function of (stream, offset,
+    length); io.BytesIO over such bytes = a stream of that length at position 0 (named by where its bytes come from)"""
+    prev_bio = reg.ext_models.get("io.BytesIO")
+
+    def m_crc32(ex, st, args, kwargs, node):
+        sb = stream_bytes_of(args[0]) if len(args) == 1 and not kwargs else None
+        if sb is None:
+            return ex.havoc_call(st, "zlib.crc32", args, node)
+        return [(st, VInt(CRCF(*sb)))]
+
+    def m_bytesio(ex, st, args, kwargs, node):
+        sb = stream_bytes_of(args[0]) if len(args) == 1 and not kwargs else None
+        if sb is None:
+            return prev_bio(ex, st, args, kwargs, node) if prev_bio is not None else ex.havoc_call(st, "io.BytesIO", args, node)
+        ns = VExt("Stream7z", SUBS(*sb))
+        st.ghost[common.pos_key(ns)] = z3.IntVal(0)
+        st.assume(SLEN(ns.t) == sb[2])
+        return [(st, ns)]
+    reg.ext_models["zlib.crc32"] = m_crc32
+    reg.ext_models["io.BytesIO"] = m_bytesio
+
+
+def spec_start_header(s):
+    """SignatureHeader ::= '7z' BC AF 27 1C  Major=0 Minor<=4  StartHeaderCRC:UINT32  NextHeaderOffset:UINT64 NextHeaderSize:UINT64
+    NextHeaderCRC:UINT32 (7zFormat.txt; 32 bytes; StartHeaderCRC covers bytes 12..31; the next header = the `size` bytes at 32 + offset,
+    inside the file (vacuous for size 0), covered by NextHeaderCRC)  -> (stream of the next header, refused)"""
+    L = SLEN(s)
+    off, size = z3.BV2Int(le(s, z3.IntVal(12), 8), False), z3.BV2Int(le(s, z3.IntVal(20), 8), False)
+    hs = SUBS(s, 32 + off, size)
+    _E, EHFAIL = sub_end("_parse_end_header")
+    bad = [L < 32, z3.Or([SB(s, z3.IntVal(i)) != bv(b_) for i, b_ in enumerate(b"7z\xbc\xaf\x27\x1c")]),
+           SB(s, z3.IntVal(6)) != bv(0), z3.UGT(SB(s, z3.IntVal(7)), bv(4)),
+           CRCF(s, z3.IntVal(12), z3.IntVal(20)) != le(s, z3.IntVal(8), 4),
+           z3.And(size > 0, 32 + off + size > L), CRCF(s, 32 + off, size) != le(s, z3.IntVal(28), 4), EHFAIL(hs, z3.IntVal(0))]
+    return hs, z3.Or(bad)
+
+
+def dispatch_contracts():
+    out = []
+
+    def S0(c):
+        return stream_of(c).t
+
+    def new_subs(c):
+        return c.st.ghost.get("subparsers", ())[len(c.entry.ghost.get("subparsers", ())):]
+
+    # call-site views of the section parsers (their own contracts, where they have one, are verified on their bodies above)
+    out.append(sub_view("_parse_pack_info", note="call-site view implied by the verified PackInfo contract above (position = end of the grammar, "
+                                                 "refusal = bad marker / short stream are functions of stream and position)"))
+    out.append(sub_view("_parse_unpack_info", note="call-site view; the function itself: BOUNDED contract (thorough tier) + native scope"))
+    out.append(sub_view("_parse_substreams_info", note="call-site view; the function itself: BOUNDED contract (thorough tier) + native scope"))
+    out.append(sub_view("_parse_files_info", note="call-site view; the function itself: BOUNDED native function-level obligation"))
+    out.append(sub_view("_parse_encoded_header", new_stream=True,
+                        note="call-site view: installs the decoded header as the new stream at position 0 (decode: Trust); not under contract itself"))
+
+    def si(c):
+        return spec_streams_info(S0(c), pos0(c))
+    out.append(FnContract(
+        target=f"{RD}._parse_streams_info", params=[("self", p_reader())], requires=req_stream, frame=sub_frame("_parse_streams_info"),
+        modifies=("self",),
+        ensures=[("section-parsers-run-at-their-sections-in-grammar-order", internal(lambda c: trace_goal(si(c)[0], new_subs(c)))),
+                 ("stream-left-after-the-END-marker", lambda c: pos1(c) == si(c)[1]),
+                 ("returns-only-if-the-StreamsInfo-grammar-accepts", lambda c: z3.Not(si(c)[2]))],
+        raises=[Raises(BAD, sub=True, when=lambda c: si(c)[2], label="a section refused / bad end marker / short stream")],
+        note="StreamsInfo grammar of 7zFormat.txt over any stream; PackInfo / UnpackInfo parsers re-read their id byte"))
+
+    def mh(c):
+        return spec_main_header(S0(c), pos0(c))
+
+    def ap_stream(x, st):
+        return st.obj(top(x, "self").ref).data["_stream"]
+
+    def ap_inv(lc):
+        """the archive-property list that starts at the current property ends where the one at the loop entry ends (and falls short iff
+        that one does): definitions of PLEND / PLBAD instantiated at the current property.  Two loop forms: `while True: id = read; if id
+        == END: break; ...` (the head stands AT a property) and the rotated `id = read; while id != END: ...; id = read` (the head stands one
+        byte after the property's id, which the loop test reads from a loop-carried local)"""
+        s_ = ap_stream(lc, lc.entry).t
+        p0, p1 = common.bytesio_pos(lc.entry, ap_stream(lc, lc.entry)), common.bytesio_pos(lc.st, ap_stream(lc, lc.st))
+        carried = loop_carried_ints(lc)
+        tested = [carried[x.id] for x in ast.walk(cur_loop(lc).test) if isinstance(x, ast.Name) and x.id in carried]
+        d = 1 if tested else 0
+        q0, q = p0 - d, p1 - d
+        lc.st.assume(pl_def(s_, q))
+        if d:       # the rotated form reads the next id inside the body: definition at the next property as well
+            lc.st.assume(pl_def(s_, q + 1 + NUML(s_, q + 1) + z3.BV2Int(NUMV(s_, q + 1), False)))
+        conj = [ap_stream(lc, lc.st).t == s_, PLEND(s_, q) == PLEND(s_, q0), PLBAD(s_, q) == PLBAD(s_, q0)]
+        if d:
+            conj += [q >= 0, p1 <= SLEN(s_)] + [ops.eq_term(v, VInt(SB(s_, q))) for v in tested]
+        return z3.And(conj)
+
+    def ap_havoc(ex, st):
+        common.havoc_pos(ex, st, ap_stream(ex, st))
+
+    out.append(FnContract(
+        target=f"{RD}._parse_main_header", params=[("self", p_reader())],
+        requires=req_stream, frame=sub_frame("_parse_main_header"), modifies=("self",),
+        hyps=lambda c: z3.BoolVal(True) if c.at_call_site else pl_def(S0(c), pos0(c) + 1),      # definition of PLEND / PLBAD at the first property
+        loops=role(both(lambda ex, st, it, node: isinstance(node, ast.While), body_calls("_read_number")),
+                   "archive-property-list-from-here-ends-where-the-list-ends", ap_inv, havoc=(ap_havoc,)),
+        ensures=[("streams-info-and-files-info-parsed-at-their-sections-in-grammar-order", internal(lambda c: trace_goal(mh(c)[0], new_subs(c)))),
+                 ("stream-left-after-the-END-marker", lambda c: pos1(c) == mh(c)[1]),
+                 ("returns-only-if-the-Header-grammar-accepts", lambda c: z3.Not(mh(c)[2]))],
+        raises=[Raises(BAD, sub=True, when=lambda c: mh(c)[2], label="a section refused / bad end marker / short stream")],
+        note="Header grammar of 7zFormat.txt incl. an ArchiveProperties list of any length (loop invariant over the property chain)"))
+    out.append(sub_view("_parse_main_header", note="call-site view for _parse_end_header; implied by the verified Header contract above"))
+
+    def eh(c):
+        return spec_end_header(S0(c), pos0(c))
+    out.append(FnContract(
+        target=f"{RD}._parse_end_header", params=[("self", p_reader())], requires=req_stream, modifies=("self",),
+        frame=sub_frame("_parse_end_header"),
+        ensures=[("encoded-header-decoded-first-then-the-Header-parsed-from-the-resulting-stream",
+                  internal(lambda c: trace_goal(eh(c)[0], new_subs(c)))),
+                 ("stream-and-position-after-the-header", internal(lambda c: z3.And(stream_of(c, c.st).t == eh(c)[1], pos1(c) == eh(c)[2]))),
+                 ("returns-only-if-the-end-header-grammar-accepts", internal(lambda c: z3.Not(eh(c)[3])))],
+        raises=[Raises(BAD, sub=True, when=lambda c: eh(c)[3], label="a section refused / unexpected property id / short stream")],
+        note="end header: [0x17 EncodedHeader] then 0x01 Header or 0x00 (empty archive); after an encoded header the id is read from the decoded stream"))
+    out.append(sub_view("_parse_end_header", note="call-site view for _parse_header; implied by the verified end-header contract above (refusal is a "
+                                                  "function of stream and position)"))
+
+    # ---- _parse_header: the 32-byte signature header of the archive file, then the end header parsed from its own stream
+    def ph_arch(c):
+        return c.entry.obj(c.args["self"].ref).data["_archive_file"].t
+
+    def ph_frame(ex, st, ctx):
+        """at a call site (SevenZipReader.__init__): the call is recorded with the archive file it reads; the fields the parsers fill are unknown"""
+        d = st.obj(ctx.args["self"].ref).data
+        st.ghost["subparsers"] = st.ghost.get("subparsers", ()) + (("_parse_header", d["_archive_file"].t, dict(d)),)
+        w = st.wobj(ctx.args["self"].ref)
+        w.data = {k: (VUnk(k) if k in SUB_FIELDS or k in ("_stream", "_header_offset") else v) for k, v in d.items()}
+
+    def ph_post(c):
+        hs, _bad = spec_start_header(ph_arch(c))
+        evs = new_subs(c)
+        d = c.st.obj(c.args["self"].ref).data
+        ho = d.get("_header_offset")
+        af = d.get("_archive_file")
+        return z3.And(z3.BoolVal(len(evs) == 1 and evs[0][0] == "_parse_end_header"),
+                      af.t == ph_arch(c) if isinstance(af, VExt) else z3.BoolVal(False),          # still reads the same archive file
+                      *( [evs[0][1] == hs, evs[0][2] == 0] if len(evs) == 1 else []),
+                      ops.eq_term(ho, VInt(32)) if isinstance(ho, VInt) else z3.BoolVal(False))
+
+    out.append(FnContract(
+        target=f"{RD}._parse_header",
+        params=[("self", p_obj("SevenZipReader", {"_archive_file": p_ext("Stream7z"), "_stream": p_ext("Stream7z"), "_header_offset": p_unk()}))],
+        requires=lambda c: SLEN(ph_arch(c)) >= 0, modifies=("self",), frame=ph_frame,
+        ensures=[("end-header-parsed-from-a-stream-over-the-next-header-bytes-and-header-offset-32", internal(ph_post)),
+                 ("returns-only-if-signature-version-and-both-CRCs-match", internal(lambda c: z3.Not(spec_start_header(ph_arch(c))[1])))],
+        raises=[Raises(BAD, sub=True, when=lambda c: spec_start_header(ph_arch(c))[1],
+                       label="bad signature / version / CRC, truncated file, or the end header refused")],
+        note="SignatureHeader of 7zFormat.txt over any archive file; zlib.crc32 uninterpreted; pack positions are relative to byte 32"))
+
+    # ---- SevenZipReader.__init__: empty state, then the header of THIS file parsed
+    def ri_post(c):
+        evs = new_subs(c)
+        if len(evs) != 1 or evs[0][0] != "_parse_header":
+            return z3.BoolVal(False)
+        _n, arch, d = evs[0]
+        empties = all(isinstance(d.get(k), VRef) and c.ex.concrete_items(c.st, d[k]) == [] for k in SUB_FIELDS if k != "_folder_to_files")
+        f2f = d.get("_folder_to_files")
+        empty_map = isinstance(f2f, (VDictC, VRef)) and (f2f.items == [] if isinstance(f2f, VDictC) else c.st.obj(f2f.ref).data in ({}, []))
+        return z3.And(arch == c.args["file"].t, z3.BoolVal(bool(empties)), z3.BoolVal(bool(empty_map)),
+                      z3.BoolVal(isinstance(d.get("_archive_file"), VExt) and isinstance(d.get("_stream"), VExt)), d["_stream"].t == arch,
+                      d["_archive_file"].t == c.args["file"].t)
+
+    def ri_frame(ex, st, ctx):
+        """at a call site (SevenZipFile.__enter__): a reader on `file` whose header has been parsed; what the parsers filled in is unknown"""
+        f = ctx.args["file"]
+        st.ghost["subparsers"] = st.ghost.get("subparsers", ()) + (("reader-init", f.t, None),)
+        w = st.wobj(ctx.args["self"].ref)
+        w.data = dict({k: VUnk(k) for k in SUB_FIELDS + ("_stream", "_header_offset")}, _archive_file=f)
+
+    out.append(FnContract(
+        target=f"{RD}.__init__", params=[("self", p_obj("SevenZipReader", {})), ("file", p_ext("Stream7z"))],
+        requires=lambda c: SLEN(c.args["file"].t) >= 0, modifies=("self",), frame=ri_frame,
+        ensures=[("state-empty-then-the-header-of-this-file-parsed-once", internal(ri_post))],
+        raises=[Raises(BAD, sub=True, when=lambda c: spec_start_header(c.args["file"].t)[1], label="the header is refused")],
+        note="file objects are streams with read() (the hasattr guard is for foreign objects: outside this contract)"))
+
+    # ---- SevenZipFile.__enter__: the reader is built on the facade's own file (so `source_file=self._file` and the reader's own
+    # `_archive_file` name the same bytes: see facade_contracts)
+    def en_post(c):
+        evs = new_subs(c)
+        me = c.args["self"]
+        rd = c.st.obj(me.ref).data.get("_reader")
+        fl = c.entry.obj(me.ref).data["_file"]
+        if len(evs) != 1 or evs[0][0] != "reader-init" or not isinstance(rd, VRef) or c.st.obj(rd.ref).cls != "SevenZipReader":
+            return z3.BoolVal(False)
+        af = c.st.obj(rd.ref).data.get("_archive_file")
+        return z3.And(z3.BoolVal(isinstance(c.result, VRef) and c.result.ref == me.ref), evs[0][1] == fl.t,
+                      af.t == fl.t if isinstance(af, VExt) else z3.BoolVal(False))
+
+    out.append(FnContract(
+        target=f"{SEVEN}::SevenZipFile.__enter__",
+        params=[("self", p_obj("SevenZipFile", {"_file": p_ext("Stream7z"), "_password": p_unk(), "_reader": p_const(None)}))],
+        requires=lambda c: SLEN(c.entry.obj(c.args["self"].ref).data["_file"].t) >= 0, modifies=("self",),
+        ensures=[("returns-itself-with-a-reader-built-on-its-own-file", internal(en_post))],
+        raises=[Raises(BAD, sub=True, when=lambda c: spec_start_header(c.entry.obj(c.args["self"].ref).data["_file"].t)[1], label="the header is refused")],
+        note="the reader is constructed under the contract of SevenZipReader.__init__ (verified above)"))
+    out.extend(facade_contracts())
+    return out
+
+
+# ---- SevenZipFile: the facade archive_extractor talks to (its ASSUMED model there: needs_password / list / extractall of ONE reader)
+READER_REFUSES = z3.Function("reader_extractall_refuses", S, B)
+
+
+def facade_contracts():
+    """SevenZipFile.list / needs_password / extractall delegate to the reader built on the SAME file: each calls the reader method of
+    its name exactly once, extractall with the caller's path and `source_file` = the file the facade was opened on (the bytes the layout
+    contracts of SevenZipReader.extractall speak about), and hands the reader's result back; Bad7zFile when not opened.  The reader methods
+    are seen through call-site views that record the call (SevenZipReader.extractall itself is verified in layout_contracts)."""
+    out = []
+
+    def view(meth, params, raises):
+        def rm(ex, st, ctx):
+            r = NONE if meth == "extractall" else VExt("ReaderResult")
+            st.ghost["reader_calls"] = st.ghost.get("reader_calls", ()) + ((meth, dict(ctx.args), r),)
+            return r
+        return FnContract(target=f"{RD}.{meth}", assumed=True, params=[("self", p_unk())] + params, result_maker=rm, raises=raises,
+                          note="call-site view for the SevenZipFile facade: the call is recorded (receiver, arguments, result)")
+    # SevenZipReader.list itself: the file list, every entry, in header order (verified; the view below is what the facade sees)
+    def rl_post(c):
+        r = c.result
+        j = z3.Int(fresh_name("j!list"))
+        if isinstance(r, VSeq):
+            e = r.elem(j)
+            return z3.And(r.length == NFILES, z3.Implies(z3.And(j >= 0, j < NFILES), e.t == FINFO(j) if isinstance(e, VExt) and e.sort == "FileInfo" else z3.BoolVal(False)))
+        items = c.ex.concrete_items(c.st, r) if isinstance(r, VRef) else None
+        if items is None:
+            return z3.BoolVal(False)
+        return z3.And([NFILES == len(items)] + [x.t == FINFO(z3.IntVal(i)) if isinstance(x, VExt) and x.sort == "FileInfo" else z3.BoolVal(False)
+                                                for i, x in enumerate(items)])
+
+    out.append(FnContract(
+        target=f"{RD}.list", params=[("self", p_obj("SevenZipReader", {"_files": p_files()}))],
+        ensures=[("every-entry-of-the-file-list-in-header-order", internal(rl_post))], raises=[],
+        note="list() is what archive_extractor's member loop iterates (through SevenZipFile.list): all entries, header order; a copy of a "
+             "sequence value is that sequence (lists built by the parsers are introduced as sequences: PY-LIST-ORDER)"))
+    out.append(view("list", [], []))
+    out.append(view("needs_password", [], []))
+    sf_maker = p_opt(p_ext("ArchiveFile"))
+    try:        # a call that omits source_file gets the default of the REAL signature (only when that is the literal None)
+        fn = loader.module(SEVEN).functions.get("SevenZipReader.extractall")
+        names = [a.arg for a in fn.args.args]
+        dflt = dict(zip(names[len(names) - len(fn.args.defaults):], fn.args.defaults)).get("source_file")
+        if isinstance(dflt, ast.Constant) and dflt.value is None:
+            sf_maker.default = lambda ex, st: NONE
+    except Exception:  # noqa  no default: such a call is out of subset
+        pass
+    out.append(view("extractall", [("path", p_str()), ("source_file", sf_maker)],
+                    [Raises("ValueError", when=lambda c: z3.Length(c.args["path"].t) == 0, label="empty path (verified on the reader)"),
+                     Raises(BAD, sub=True, when=lambda c: READER_REFUSES(c.args["path"].t), label="extraction failed")]))
+
+    def facade():
+        return p_obj("SevenZipFile", {"_file": p_ext("ArchiveFile"), "_password": p_unk(),
+                                      "_reader": p_alts(p_const(None), p_obj("SevenZipReader", {}))})
+
+    def reader_of(c):
+        return c.entry.obj(c.args["self"].ref).data["_reader"]
+
+    def delegates(meth):
+        def f(c):
+            calls = c.st.ghost.get("reader_calls", ())[len(c.entry.ghost.get("reader_calls", ())):]
+            rd = reader_of(c)
+            if len(calls) != 1 or calls[0][0] != meth or not isinstance(rd, VRef):
+                return z3.BoolVal(False)
+            _m, a, r = calls[0]
+            goal = [z3.BoolVal(isinstance(a.get("self"), VRef) and a["self"].ref == rd.ref)]
+            if meth == "extractall":
+                sf, fl = a.get("source_file"), c.entry.obj(c.args["self"].ref).data["_file"]
+                goal.append(ops.eq_term(a["path"], c.args["path"]) if isinstance(a.get("path"), VStr) else z3.BoolVal(False))
+                # the reader reads from `source_file`, or from the file it was built on when that is None (SevenZipFile.__enter__ builds
+                # it on the facade's own file: not under contract, covered by the native scope): both name the same bytes
+                goal.append(sf.t == fl.t if isinstance(sf, VExt) and sf.sort == "ArchiveFile" else z3.BoolVal(sf is NONE or sf is None))
+                goal.append(z3.BoolVal(c.result is NONE))
+            else:
+                goal.append(z3.BoolVal(isinstance(c.result, VExt) and c.result is r))
+            return z3.And(goal)
+        return f
+
+    def fi_post(c):
+        d = c.st.obj(c.args["self"].ref).data
+        fl = d.get("_file")
+        return z3.And(z3.BoolVal(d.get("_reader") is NONE), fl.t == c.args["file"].t if isinstance(fl, VExt) else z3.BoolVal(False),
+                      c.args["mode"].t == z3.StringVal("r"))
+
+    out.append(FnContract(
+        target=f"{SEVEN}::SevenZipFile.__init__",
+        params=[("self", p_obj("SevenZipFile", {})), ("file", p_ext("ArchiveFile")), ("mode", p_alts(p_const("r"), p_str())), ("password", p_unk())],
+        modifies=("self",),
+        ensures=[("not-opened-yet-on-the-given-file-read-mode-only", internal(fi_post))],
+        raises=[Raises(BAD, sub=True, when=lambda c: c.args["mode"].t != z3.StringVal("r"), label="a mode other than 'r'")],
+        note="construction does not touch the file; the reader is built by __enter__"))
+
+    def fx_post(c):
+        d = c.st.obj(c.args["self"].ref).data
+        r = c.result
+        falsy = r is NONE or (isinstance(r, VBool) and r.const() is False)
+        return z3.And(z3.BoolVal(d.get("_reader") is NONE), z3.BoolVal(bool(falsy)))
+
+    out.append(FnContract(
+        target=f"{SEVEN}::SevenZipFile.__exit__",
+        params=[("self", facade()), ("exc_type", p_unk()), ("exc_val", p_unk()), ("exc_tb", p_unk())], modifies=("self",),
+        ensures=[("reader-dropped-and-a-falsy-result-so-an-exception-of-the-body-propagates", internal(fx_post))], raises=[], total=True,
+        note="PEP 343: a falsy __exit__ result re-raises the body's exception (a member failure must not be swallowed with the archive)"))
+
+    for meth, extra in (("list", []), ("needs_password", []), ("extractall", [("path", p_str())])):
+        rs = [Raises(BAD, sub=True, label="archive not opened" + (" / extraction failed" if extra else ""),
+                     when=(lambda c: z3.Or(z3.BoolVal(reader_of(c) is NONE), READER_REFUSES(c.args["path"].t))) if extra
+                     else (lambda c: z3.BoolVal(reader_of(c) is NONE)))]
+        if extra:
+            rs.append(Raises("ValueError", when=lambda c: z3.Length(c.args["path"].t) == 0, label="empty path (from the reader)"))
+        out.append(FnContract(
+            target=f"{SEVEN}::SevenZipFile.{meth}", params=[("self", facade())] + extra,
+            ensures=[(f"reader-{meth}-called-once-on-the-opened-reader" + ("-with-the-path-and-no-other-file-than-its-own" if extra else "-and-its-result-returned"),
+                      internal(delegates(meth))),
+                     ("returns-only-if-opened", internal(lambda c: z3.BoolVal(reader_of(c) is not NONE)))],
+            raises=rs, note="facade of the own 7z reader (py7zr-compatible surface)"))
+    return out
+
+
 # ============================================================ detection (f) ==
 # published magic numbers (PKWARE APPNOTE 4.3.7 / 4.3.16, 7zFormat.txt, RFC 1952, bzip2 "BZh", xz file format 2.1.1.1,
 # POSIX ustar header: "ustar" at offset 257)
@@ -3766,10 +4286,12 @@ def contracts(reg):
     install_stream(reg)
     install_layout(reg)
     install_members(reg)
+    install_header(reg)
     out = []
     out.extend(byte_contracts())
     out.extend(layout_contracts(reg))
     out.extend(parser_contracts())
+    out.extend(dispatch_contracts())
     out.extend(build_contracts(reg))
     out.extend(member_contracts(reg.ext_models))
     out.extend(detect_contracts())
@@ -3891,6 +4413,15 @@ def native_files_info(repo, tier):
                               "property orders; unknown properties skipped by size")
 
 
+def native_files_info_attributes(repo, tier):
+    """the attribute words of the FilesInfo section (the directory bit 0x10 is read from them) are handed to _build_file_list as stored:
+    executable clause of the same function-level contract, run natively (BOUNDED); fails today: recorded finding F31"""
+    return _native_obligation(repo, F31_OID, "1 / 3 / 9 entries, all attributes defined, files and directories mixed")
+
+
+F31_OID = "C10/sevenzip.py::SevenZipReader._parse_files_info/bounded#attributes-handed-to-_build_file_list-equal-the-FilesInfo-grammar.BOUNDED"
+
+
 def known_findings(kf, violations, repo, tier):
     """Recorded genuine defects (known_findings.json): each witness is replayed natively; a finding that still fails
     prints KNOWN-FINDING and covers exactly its own obligation id (every other refuted obligation stays a violation)."""
@@ -3918,7 +4449,7 @@ def known_findings(kf, violations, repo, tier):
 
 EXECUTOR = MemberExecutor
 EXECUTOR_KW = {}
-EXTRA = [table_check, native_scope, native_files_info]
+EXTRA = [table_check, native_scope, native_files_info, native_files_info_attributes]
 TRUSTED = [
     "decode (copy = identity, LZMA / LZMA2 via liblzma) is uninterpreted: _apply_decoder is an assumed contract; its results are "
     "compared natively by replay/C10.py for copy / LZMA / LZMA2 folders",
@@ -3943,6 +4474,8 @@ ASSUMED_MODELS = [
     "str.split(sep): n >= 1 pieces without sep, s starts with piece 0 (+ sep when n > 1) and ends with the last piece, n == 1 iff sep not in s",
     "ZipFile.read raises RuntimeError on an encrypted member (ghost flag zip_read_refused); APPNOTE 4.4.4: general purpose bit 0 = encrypted",
     "int-valued enum members compare / hash / print as their ints (PY-INTENUM); with-statement over a plain module class = PEP 343 expansion",
+    "zlib.crc32 over bytes read from a stream: uninterpreted function of (stream, offset, length); io.BytesIO over such bytes: a stream of "
+    "that length at position 0; hasattr(x, name) is True for an abstract object the pack models with a method of that name",
 ]
 ASSUMPTIONS = [
     "PY-INT with exact bit-vector encoding", "PY-GEN", "EXC-ANY for un-modelled library calls", "logger calls dropped (PY-LOG)",
@@ -3959,8 +4492,16 @@ ASSUMPTIONS = [
     "a ZIP/TAR/7z member above max_memory_size / MAX_ARCHIVE_FILE_SIZE is skipped (C12's limits); members are distinct names: no two "
     "non-directory 7z entries resolve to one normalised path (the per-path counting pass of _extract_from_7z_optimized is introduced as the "
     "occurrence count PCOUNT, which is 1 for every member under this assumption)",
-    "_parse_files_info / _parse_header / _parse_main_header / _parse_streams_info are NOT under contract: their stand-in is the BOUNDED "
-    "native-scope obligation (replay/C10.py on the real code at every run)",
+    "_parse_files_info / _parse_encoded_header / _skip_substreams_info are NOT under contract (filter comprehension, index stores into "
+    "symbolic-length lists, UTF-16 decoding: outside the engine's subset): their stand-in is the BOUNDED native-scope obligation "
+    "(replay/C10.py on the real code at every run) and, for _parse_files_info, the BOUNDED native function-level obligation",
+    "call-site VIEWS used while the header dispatchers are verified (reported as assumed contracts): _parse_pack_info, _parse_main_header, "
+    "_parse_end_header, SevenZipReader.extractall views are IMPLIED by the verified contracts of these functions (end position / refusal "
+    "are functions of stream and position; the PackInfo `none` case); _parse_unpack_info / _parse_substreams_info views rest on their "
+    "BOUNDED (thorough tier) contracts; _parse_files_info / _parse_encoded_header / SevenZipReader.list / needs_password views only say "
+    "`deterministic in (stream, position)` resp. `the call is recorded`: these functions are not verified",
+    "ArchiveProperties chain: PLEND / PLBAD (where the property list ends, whether a read falls short) are primitive-recursive spec "
+    "functions used through instances of their defining equations at the loop head (like NUMPOS / DCNT)",
     "NUMPOS / DCNT (positions after i NUMBERs, defined digests among the first i) are primitive-recursive spec functions used through "
     "instances of their defining equations and two monotonicity lemmas proved by induction",
 ]
